@@ -1037,6 +1037,31 @@ pub fn complementary_derivatives_family(pool: &Pool) -> Vec<T> {
     v
 }
 
+/// Ranges whose end points are landmark code points (ends of narrower character types, the surrogate block, U+FFFD,
+/// planes): alone, complemented, followed by a letter, and two of them side by side.
+pub fn landmark_range_family() -> Vec<T> {
+    let lm = LANDMARKS;
+    let mut v = vec![];
+    for (i, &lo) in lm.iter().enumerate() {
+        for (j, &hi) in lm[i..].iter().enumerate() {
+            let r = T::Rng(lo, hi);
+            match (i + j) % 4 {
+                0 => v.push(r),
+                1 => v.push(T::Cat2(b(&r), Box::new(T::Chr(97)))),
+                2 => v.push(T::Star(b(&r))),
+                _ => v.push(T::And2(Box::new(T::Not(b(&r))), Box::new(T::AllChar))),
+            }
+        }
+    }
+    for w in lm.windows(4) {
+        if w[1] > w[0] && w[3] > w[2] {
+            v.push(T::Alt2(Box::new(T::Rng(w[0], w[1] - 1)), Box::new(T::Rng(w[2], w[3]))));
+            v.push(T::And2(Box::new(T::Rng(w[0], w[2])), Box::new(T::Rng(w[1], w[3]))));
+        }
+    }
+    v
+}
+
 /// Terms with many derivative classes (sizes around 8/16/32: searches over the class list change strategy there).
 pub fn many_classes_family() -> Vec<T> {
     let mut v = vec![];
